@@ -142,6 +142,10 @@ def obligations(tier):
         for s in tc.shapes(3):
             if s[0] >= 1:
                 obs.append(dict(name=f"bpm_at{s}/G{G}", func="ob_bpm_at", args=(s, G), budget_s=b, bounds=f"shape {s}"))
+        # three warps (nested / overlapping / touching in every arrangement) need a third of a kind
+        for s, g in (((0, 0, 0, 3), 8), ((0, 1, 0, 3), 4)):
+            obs.append(dict(name=f"time_at{s}/G{g}/alltags", func="ob_time_at", args=(s, g, None), budget_s=b, bounds=f"shape {s}: three warps, ticks 0..{g}"))
+        obs.append(dict(name="monotone(0, 0, 0, 3)/G6", func="ob_monotone", args=((0, 0, 0, 3), 6), budget_s=b, bounds="three warps, two symbolic queries"))
     else:
         G, b = 48, 1500
         for s in tc.shapes(4):
@@ -157,6 +161,9 @@ def obligations(tier):
         for s in tc.shapes(4):
             if s[0] >= 1:
                 obs.append(dict(name=f"bpm_at{s}/G{G}", func="ob_bpm_at", args=(s, G), budget_s=b, bounds=f"shape {s}"))
+        for s, g in (((0, 0, 0, 3), 24), ((0, 1, 0, 3), 12), ((1, 0, 0, 3), 12), ((0, 0, 1, 3), 12)):
+            obs.append(dict(name=f"time_at{s}/G{g}/alltags", func="ob_time_at", args=(s, g, None), budget_s=b, bounds=f"shape {s}: three warps, ticks 0..{g}"))
+        obs.append(dict(name="monotone(0, 0, 0, 3)/G12", func="ob_monotone", args=((0, 0, 0, 3), 12), budget_s=b, bounds="three warps"))
         # positions unbounded above (G only bounds distances): one family with a huge grid
         for s in [(1, 1, 0, 1), (0, 1, 1, 1), (0, 0, 0, 2), (1, 0, 0, 2)]:
             obs.append(dict(name=f"time_at{s}/G100000/alltags", func="ob_time_at", args=(s, 100000, None), budget_s=b, bounds=f"shape {s}, ticks 0..100000"))
@@ -216,7 +223,7 @@ def replay(data):
 def main(tier):
     from vlib import core
     chk = core.Check(PROP, tier, "harness." + PROP, FUNCTIONS,
-                     bounds={"quick": "<=3 events besides the first BPM (<=2 per kind), tick grid 0..12, query ticks -12..36, all 7 tags",
+                     bounds={"quick": "<=3 events besides the first BPM (<=2 per kind) on a tick grid 0..12, plus three warps (with/without a stop) on a grid 0..8; query ticks -G..3G, all 7 tags",
                              "thorough": "<=4 events (<=2 per kind), tick grid 0..48; plus selected shapes on a grid 0..100000"}[tier],
                      assumptions=ASSUMPTIONS, outside=OUTSIDE)
     chk.add_results(core.run_obligations("harness." + PROP, obligations(tier)))
